@@ -1,5 +1,5 @@
 (* Proofs about the worker/consumer handshake and the result-object consumers (C15). *)
-From Coq Require Import ZArith List Bool Arith Lia.
+From Coq Require Import ZArith List Bool Arith Lia Sorted.
 Import ListNotations.
 From MP Require Import Pool Pool_proofs PoolSync.
 
@@ -291,3 +291,173 @@ Proof. reflexivity. Qed.
 Example drain_example :
   drain_run false 2 false [DConsumer; DWorkerTake; DConsumer; DWorkerTake; DConsumer; DConsumer; DConsumer] = DDone.
 Proof. reflexivity. Qed.
+
+(* ---- capture mode: no SourceError is swallowed *)
+Lemma capture_loop_spec rs : forall acc errs n,
+  first_hard_exc rs = None ->
+  capture_loop rs acc errs n = (acc ++ nonblank rs, errs ++ source_errs rs, n + count_ok rs, None).
+Proof.
+  induction rs as [|[v|e] r IH]; intros acc errs n Hh; cbn [capture_loop nonblank source_errs count_ok first_hard_exc] in *.
+  - rewrite !app_nil_r, Nat.add_0_r. reflexivity.
+  - rewrite (IH _ _ _ Hh). destruct (Z.ltb v 0).
+    + rewrite Nat.add_succ_comm. reflexivity.
+    + rewrite <- app_assoc, Nat.add_succ_comm. reflexivity.
+  - destruct (Z.ltb e 1000); [|discriminate].
+    rewrite (IH _ _ _ Hh), <- app_assoc. reflexivity.
+Qed.
+
+(* with no hard exception: every SourceError is collected (in layer order); if at least one layer was rendered
+   the images of all layers that delivered one are added bottom-up and - when something failed - the message
+   image (-2) goes on top; if nothing was rendered the request fails ("Could not get any sources", -1) *)
+Lemma render_capture_reports pool_size items arr split :
+  is_perm arr (length items) -> first_hard_exc items = None -> items <> [] ->
+  render_capture pool_size items arr split =
+  match count_ok items with
+  | O => (nonblank items, source_errs items, Some (-1)%Z)
+  | S _ => (match source_errs items with [] => nonblank items | _ => nonblank items ++ [(-2)%Z] end,
+            source_errs items, None)
+  end.
+Proof.
+  intros Hp Hh Hne. unfold render_capture. rewrite (imap_result_objects _ _ _ _ Hp).
+  destruct items as [|x r]; [congruence|].
+  rewrite (capture_loop_spec (x :: r) [] [] 0 Hh). cbn [app Nat.add].
+  destruct (count_ok (x :: r)); [reflexivity|].
+  destruct (source_errs (x :: r)); reflexivity.
+Qed.
+
+(* ---- _query_sources *)
+Lemma indexed_nonblank_attr rs : forall i v k,
+  In (v, k) (indexed_nonblank i rs) -> i <= k /\ nth (k - i) rs (Ok 0) = Ok v /\ (0 <= v)%Z.
+Proof.
+  induction rs as [|[w|e] r IH]; intros i v k H; cbn [indexed_nonblank] in H.
+  - destruct H.
+  - destruct (Z.ltb w 0) eqn:E.
+    + destruct (IH _ _ _ H) as (Hle & Hn & Hv). split; [lia|]. split; [|exact Hv].
+      replace (k - i) with (S (k - S i)) by lia. exact Hn.
+    + destruct H as [H|H].
+      * injection H as -> ->. rewrite Nat.sub_diag. split; [lia|]. split; [reflexivity|].
+        apply Z.ltb_ge in E. exact E.
+      * destruct (IH _ _ _ H) as (Hle & Hn & Hv). split; [lia|]. split; [|exact Hv].
+        replace (k - i) with (S (k - S i)) by lia. exact Hn.
+  - destruct (IH _ _ _ H) as (Hle & Hn & Hv). split; [lia|]. split; [|exact Hv].
+    replace (k - i) with (S (k - S i)) by lia. exact Hn.
+Qed.
+
+Lemma indexed_nonblank_complete rs : forall i k v,
+  nth k rs (Exc 0) = Ok v -> (0 <= v)%Z -> In (v, i + k) (indexed_nonblank i rs).
+Proof.
+  induction rs as [|x r IH]; intros i k v H Hv.
+  - destruct k; discriminate.
+  - destruct k as [|k].
+    + cbn [nth] in H. subst x. cbn [indexed_nonblank].
+      replace (Z.ltb v 0) with false by (symmetry; apply Z.ltb_ge; exact Hv).
+      left. f_equal. lia.
+    + cbn [nth] in H. specialize (IH (S i) k v H Hv). replace (i + S k) with (S i + k) by lia.
+      cbn [indexed_nonblank]. destruct x as [w|e]; [destruct (Z.ltb w 0)|]; try exact IH. right. exact IH.
+Qed.
+
+Lemma indexed_nonblank_sorted rs : forall i,
+  StronglySorted lt (map snd (indexed_nonblank i rs)) /\ forall k, In k (map snd (indexed_nonblank i rs)) -> i <= k.
+Proof.
+  induction rs as [|[w|e] r IH]; intros i; cbn [indexed_nonblank].
+  - split; [constructor | intros k []].
+  - destruct (IH (S i)) as [Hs Hb]. destruct (Z.ltb w 0).
+    + split; [exact Hs | intros k Hk; specialize (Hb k Hk); lia].
+    + cbn [map snd]. split.
+      * constructor; [exact Hs|]. apply Forall_forall. intros k Hk. specialize (Hb k Hk). lia.
+      * intros k [<-|Hk]; [lia | specialize (Hb k Hk); lia].
+  - destruct (IH (S i)) as [Hs Hb]. split; [exact Hs | intros k Hk; specialize (Hb k Hk); lia].
+Qed.
+
+Lemma query_sources_own_coverage items v k :
+  In (v, k) (indexed_nonblank 0 items) -> value_of items k = Ok v /\ (0 <= v)%Z.
+Proof.
+  intros H. destruct (indexed_nonblank_attr items 0 v k H) as (_ & Hn & Hv).
+  rewrite Nat.sub_0_r in Hn. split; [exact Hn | exact Hv].
+Qed.
+Lemma query_sources_complete items k v :
+  nth k items (Exc 0) = Ok v -> (0 <= v)%Z -> In (v, k) (indexed_nonblank 0 items).
+Proof. exact (indexed_nonblank_complete items 0 k v). Qed.
+Lemma query_sources_sorted items : StronglySorted lt (map snd (indexed_nonblank 0 items)).
+Proof. exact (proj1 (indexed_nonblank_sorted items 0)). Qed.
+
+Lemma query_sources_ok items arr split :
+  is_perm arr (length items) -> all_ok items ->
+  query_sources items arr split = (indexed_nonblank 0 items, None).
+Proof.
+  intros Hp Hok. unfold query_sources. rewrite (imap_raise_all_ok _ _ _ _ Hp Hok). reflexivity.
+Qed.
+
+(* the first failing index in arrival order *)
+Lemma first_fail_split items arr :
+  (exists i e, In i arr /\ value_of items i = Exc e) ->
+  exists pre j e post, arr = pre ++ j :: post /\ value_of items j = Exc e /\
+                       forall i, In i pre -> exists v, value_of items i = Ok v.
+Proof.
+  induction arr as [|a arr IH]; intros (i & e & Hi & He); [destruct Hi|].
+  destruct (value_of items a) as [v|e'] eqn:Ea.
+  - destruct Hi as [->|Hi]; [congruence|].
+    destruct (IH (ex_intro _ i (ex_intro _ e (conj Hi He)))) as (pre & j & e2 & post & -> & Hj & Hpre).
+    exists (a :: pre), j, e2, post. split; [reflexivity|]. split; [exact Hj|].
+    intros k [<-|Hk]; [exists v; exact Ea | apply Hpre, Hk].
+  - exists [], a, e', arr. split; [reflexivity|]. split; [exact Ea|]. intros k [].
+Qed.
+
+Lemma first_exc_index items e : first_exc items = Some e -> exists i, i < length items /\ value_of items i = Exc e.
+Proof.
+  unfold value_of. induction items as [|[v|x] r IH]; cbn [first_exc]; intros H; [discriminate| |].
+  - destruct (IH H) as (i & Hi & Hv). exists (S i). split; [simpl; lia | exact Hv].
+  - injection H as ->. exists 0. split; [simpl; lia | reflexivity].
+Qed.
+
+Lemma first_exc_split items e : first_exc items = Some e ->
+  exists pre post, items = pre ++ Exc e :: post /\ all_ok pre.
+Proof.
+  induction items as [|[v|x] r IH]; cbn [first_exc]; intros H; [discriminate| |].
+  - destruct (IH H) as (pre & post & -> & Hok). exists (Ok v :: pre), post. split; [reflexivity|].
+    intros w [<-|Hw]; [exists v; reflexivity | apply Hok, Hw].
+  - injection H as ->. exists [], r. split; [reflexivity | intros w []].
+Qed.
+
+(* a failing source is never swallowed: some source's own exception reaches the caller, nothing is merged *)
+Lemma query_sources_failure items arr split e0 :
+  is_perm arr (length items) -> first_exc items = Some e0 ->
+  exists e, In (Exc e) items /\ query_sources items arr split = ([], Some e).
+Proof.
+  intros Hp Hf. unfold query_sources.
+  destruct (Nat.lt_ge_cases (length items) 2) as [Hlen|Hlen].
+  - (* a single source: _single_call *)
+    destruct (first_exc_split _ _ Hf) as (pre & post & -> & Hok).
+    exists e0. split; [apply in_or_app; right; left; reflexivity|].
+    rewrite (imap_raise_sequential _ pre e0 post arr split); [reflexivity | | exact Hok].
+    right. rewrite app_length in *. simpl in *. destruct pre; simpl in *; lia.
+  - destruct (first_exc_index _ _ Hf) as (i & Hi & Hv).
+    destruct (first_fail_split items arr) as (pre & j & e & post & -> & Hj & Hpre).
+    { exists i, e0. split; [apply Hp; exact Hi | exact Hv]. }
+    destruct (imap_raise_first_arriving (Nat.min (length items) MAX_MAP_ASYNC_THREADS) items pre j e post split)
+      as (k & _ & ->); try assumption.
+    { unfold MAX_MAP_ASYNC_THREADS. lia. }
+    exists e. split; [|reflexivity].
+    assert (Hjl : j < length items) by (apply Hp, in_or_app; right; left; reflexivity).
+    unfold value_of in Hj. rewrite <- Hj. apply nth_In. exact Hjl.
+Qed.
+
+(* ---- bulk loads / stores of the S3 and Azure caches *)
+Lemma bulk_io_all pool_size items arr split :
+  is_perm arr (length items) -> all_ok items ->
+  bulk_io pool_size items arr split = (forallb truthy items, length items, None).
+Proof.
+  intros Hp Hok. unfold bulk_io. rewrite (imap_raise_all_ok _ _ _ _ Hp Hok). reflexivity.
+Qed.
+
+Example query_sources_example :
+  query_sources [Ok 7; Ok (-1); Ok 9] [2; 0; 1] 1 = ([(7%Z, 0); (9%Z, 2)], None).
+Proof. vm_compute. reflexivity. Qed.
+Example query_sources_fail_example :
+  query_sources [Ok 7; Exc 5; Ok 9] [2; 0; 1] 1 = ([], Some 5%Z).
+Proof. vm_compute. reflexivity. Qed.
+Example bulk_io_example : bulk_io 4 [Ok (-1); Ok 1; Ok 2; Ok 3] [3; 2; 1; 0] 2 = (false, 4, None).
+Proof. vm_compute. reflexivity. Qed.
+Example render_capture_reports_example :
+  render_capture 3 [Ok (-1); Exc 5; Ok (-1)] [2; 0; 1] 1 = ([(-2)%Z], [5%Z], None).
+Proof. vm_compute. reflexivity. Qed.
